@@ -113,13 +113,12 @@ Qed.
    a forest containing a name that is not a single path element is rejected and the file
    system is untouched *)
 Theorem mkdir_rejects_bad_names c dir f ts :
-  is_default (c_enc c) = true ->
   (exists t n, In t ts /\ In n (tnames t) /\ elem_ok n = false) ->
   exists e, mkdir_trees c dir f ts = (f, [], Err e).
 Proof.
-  intros He [t [n [Ht [Hn Hbad]]]]. unfold mkdir_trees.
-  assert (H : exists e, grow_all c true ts = Err e).
-  { induction ts as [|t0 r IH]; [destruct Ht|]. cbn [grow_all]. unfold grow_one at 1. rewrite He, orb_true_r.
+  intros [t [n [Ht [Hn Hbad]]]]. unfold mkdir_trees. cbn zeta.
+  assert (H : exists e, grow_all (no_enc c) true ts = Err e).
+  { induction ts as [|t0 r IH]; [destruct Ht|]. cbn [grow_all]. unfold grow_one at 1. cbn [no_enc c_enc is_default c_bf]. rewrite orb_true_r.
     destruct (validate_g (grow_root (c_bf c) t0)) as [e|] eqn:V; [eexists; reflexivity|].
     destruct Ht as [Ht|Ht].
     - subst. exfalso. destruct (validate_g_bad (grow_root (c_bf c) t)) as [e He']; [|congruence].
@@ -199,8 +198,8 @@ Qed.
 (* ---------- C09: dry run ---------- *)
 Theorem dry_run_no_effect c dir f ts : c_dry c = true -> fst (fst (mkdir_trees c dir f ts)) = f.
 Proof.
-  intros Hd. unfold mkdir_trees. destruct (grow_all c true ts) as [gs| |]; try reflexivity. rewrite Hd.
-  destruct (spread_all c gs); reflexivity.
+  intros Hd. unfold mkdir_trees. cbn zeta. destruct (grow_all (no_enc c) true ts) as [gs| |]; try reflexivity.
+  cbn [no_enc c_dry]. rewrite Hd. destruct (spread_all (no_enc c) gs); reflexivity.
 Qed.
 
 Definition with_dry (c : cfg) (b : bool) : cfg :=
@@ -247,10 +246,13 @@ Theorem dry_run_same_verdict c dir f ts :
   (name_error dry = true -> real = dry) /\
   (name_error dry = false -> dry = Ok tt).
 Proof.
-  cbn zeta. unfold mkdir_trees. rewrite (grow_all_forced c false ts).
-  destruct (grow_all (with_dry c true) true ts) as [gs|e|] eqn:G.
-  - cbn [with_dry c_dry]. destruct (spread_all_ok (with_dry c true) gs) as [cs Hc]. rewrite Hc. cbn [snd name_error].
-    destruct (mkdirer (c_exts (with_dry c false)) dir f gs) as [f1 r] eqn:M. cbn [snd].
+  cbn zeta. unfold mkdir_trees. cbn zeta.
+  change (no_enc (with_dry c false)) with (with_dry (no_enc c) false).
+  change (no_enc (with_dry c true)) with (with_dry (no_enc c) true).
+  rewrite (grow_all_forced (no_enc c) false ts).
+  destruct (grow_all (with_dry (no_enc c) true) true ts) as [gs|e|] eqn:G.
+  - cbn [with_dry c_dry]. destruct (spread_all_ok (with_dry (no_enc c) true) gs) as [cs Hc]. rewrite Hc. cbn [snd name_error].
+    destruct (mkdirer (c_exts (with_dry (no_enc c) false)) dir f gs) as [f1 r] eqn:M. cbn [snd].
     destruct (mkdirer_result _ _ _ _ _ _ M) as [[-> _]|[[-> _]|[-> _]]]; cbn; repeat split; intros; congruence.
   - cbn [snd]. pose proof (grow_all_name_error _ _ _ _ G) as Hn. rewrite Hn. repeat split; intros; congruence.
   - exfalso. exact (grow_all_no_panic _ _ _ G).
@@ -258,9 +260,9 @@ Qed.
 
 (* the report: per root, its plain tree text, an empty line, "d directories, f files" *)
 Theorem dry_run_report c dir f ts gs :
-  c_dry c = true -> grow_all c true ts = Ok gs ->
+  c_dry c = true -> grow_all (no_enc c) true ts = Ok gs ->
   mkdir_trees c dir f ts = (f, [CText (concat (map (dry_block (c_exts c)) gs))], Ok tt) /\
   forall g, dry_block (c_exts c) g = text_of g ++ [c_lf] ++ summary (c_exts c) g ++ [c_lf].
 Proof.
-  intros Hd Hg. unfold mkdir_trees. rewrite Hg, Hd. unfold spread_all. rewrite Hd. split; reflexivity.
+  intros Hd Hg. unfold mkdir_trees. cbn zeta. rewrite Hg. cbn [no_enc c_dry]. rewrite Hd. unfold spread_all. cbn [no_enc c_dry c_exts]. rewrite Hd. split; reflexivity.
 Qed.
